@@ -29,7 +29,7 @@ def gen_history(seed, tier, *, n_ops=(2, 6), genkw=None,
                 final_run=True):
     rng = worldgen.child_rng(seed, "history")
     # (value stores on literals and gather results, too; one store object behind two source nodes)
-    kw = dict(SIZES[tier], p_store_other=0.12, p_dup_src=0.1)
+    kw = dict(SIZES[tier], p_store_other=0.12, p_dup_src=0.1, p_fed_same=0.4)
     kw.update(genkw or {})
     world = worldgen.gen_world(rng, registry=True, p_unpack=0.0, scopes="plain", **kw)
     sc = worldgen.gen_sched(rng)
@@ -47,6 +47,11 @@ def gen_history(seed, tier, *, n_ops=(2, 6), genkw=None,
         k = rng.choice(kinds)
         if k == "run":
             ops.append(dict(op="run", cfg=_cfg(rng, world)))
+            if not future_done[0] and deletable and rng.random() < 0.1:
+                # right after a successful run - every store is up to date - one stored value gets a modified time far
+                # ahead of every clock (a skewed writer, a touched file): later writes are later still
+                future_done[0] = True
+                ops.append(dict(op="future", store=rng.choice(deletable)))
         elif k == "fail":
             cfg = _cfg(rng, world)
             faults = dict(calls=worldgen.gen_call_faults(rng, world, p_fail=0.2, excs=("E1", "E2", "B1")),
@@ -65,11 +70,7 @@ def gen_history(seed, tier, *, n_ops=(2, 6), genkw=None,
         elif k == "update" and pure:
             ops.append(dict(op="update", store=rng.choice(pure)))
         elif k == "delete" and deletable:
-            if not future_done[0] and rng.random() < 0.12 and not world.get("file_stores"):
-                future_done[0] = True
-                ops.append(dict(op="future", store=rng.choice(deletable)))
-            else:
-                ops.append(dict(op="delete", store=rng.choice(deletable)))
+            ops.append(dict(op="delete", store=rng.choice(deletable)))
         elif k == "fresh":
             if rng.random() < 0.25 and world["stores"]:
                 ops.append(dict(op="fresh_at", store=rng.choice(sorted(world["stores"]))))
